@@ -73,4 +73,16 @@ theorem extractAll_eq (e : Expr) (V : List String) :
     case bin op l r => simp only [fastBinop_eq]; rfl
   · simp [hl]
 
+/-- `extract_linear_coefficient(expr, var)` -/
+theorem extractLinearCoefficient_eq (e : Expr) (x : String) :
+    extractLinearCoefficient e x = extractLinearCoefficientG isLinear (coeffOne x) constTerm e := by
+  unfold extractLinearCoefficient extractLinearCoefficientG
+  cases isLinear e <;> rfl
+
+/-- `extract_constant_term(expr)` -/
+theorem extractConstantTerm_eq (e : Expr) :
+    extractConstantTerm e = extractConstantTermG isLinear (coeffOne "") constTerm e := by
+  unfold extractConstantTerm extractConstantTermG
+  cases isLinear e <;> rfl
+
 end Optyx.Props.LPFastTie
